@@ -205,7 +205,7 @@ class Program:
                 cur = ("extern", cur[1] + "." + p)
             elif cur[0] == "class":
                 meths = cur[1].classes[cur[2]]
-                cur = ("func", meths[p]) if p in meths else None
+                cur = ("func", meths[p]) if p in meths else ("classattr", cur[1], cur[2], p)
             else:
                 return ("attr", cur, p)
         return cur
